@@ -20,8 +20,11 @@
    its slot with status "GONE" (other flows may still hold a reference to the object).
    Slice 5 adds interaction loops (@loop("name") / @loop("NEW"), inherited from the parent otherwise, loop priority in the
    order of the head candidates) and the `priority` statement (flow priority 1.0 / 0.5 multiplied into every match score).
-   NOT yet modelled (programs using them are outside the fragment): flow parameters, explicit FinishFlow / StopFlow
-   events, global variables.
+   Slice 6 adds flow parameters: named / positional / default binding (create_flow_instance + _start_flow), the arguments
+   carried by every flow event, the parameter comparison that decides whether an activation re-uses a reference instance,
+   and `$x = await f` (the return_value member of the Finished event).
+   NOT yet modelled (programs using them are outside the fragment): explicit FinishFlow / StopFlow events, global
+   variables, events written as members of a flow / action constructor.
 
    The program is the REAL compiler output (FlowConfig.elements exported as JSON by
    harness/colang2.export_sm): P below.  One TLA+ step = one run_to_completion call (macro step),
@@ -127,6 +130,9 @@ Eval(S, k, e) ==
     [] e.k = "member" -> (IF ~HasVar(f, e.v) THEN <<FALSE, <<"n", 0>>>>
                           ELSE LET o == Var(f, e.v) IN
                                IF o[1] = "ev" /\ e.a = <<"flow">> THEN <<TRUE, <<"flow", o[3]>>>>
+                               ELSE IF o[1] = "ev" /\ e.a = <<"arguments", "return_value">> /\ o[2] = "FlowFinished" /\ o[3] # 0
+                                       /\ HasVar(Fl(S, o[3]), "_return_value")
+                                 THEN <<TRUE, Var(Fl(S, o[3]), "_return_value")>>         \* `$x = await f`
                                ELSE <<FALSE, <<"n", 0>>>>)
     [] e.k = "not"    -> LET r == Eval(S, k, e.a[1]) IN <<r[1], <<"b", ~Truthy(r[2])>>>>
     [] e.k = "eq"     -> LET x == Eval(S, k, e.a[1])  y == Eval(S, k, e.b[1]) IN <<x[1] /\ y[1], <<"b", x[2] = y[2]>>>>
@@ -149,9 +155,10 @@ ArgUpdate(a, b) == IF b = <<>> THEN a ELSE ArgUpdate(ArgSet(a, b[1][1], b[1][2])
 Ev(name, args, scores, cls, src) == [name |-> name, args |-> args, scores |-> scores, cls |-> cls, src |-> src, act |-> 0]
 OutArgs(S, k) == << <<"source_flow_instance_uid", <<"uid", Fl(S, k).uid>>>>, <<"flow_instance_uid", <<"uid", Fl(S, k).uid>>>>,
                     <<"flow_id", <<"s", Fl(S, k).fid>>>> >>
-FlowEvent(S, k, name, scores) ==       \* FlowState._create_out_event (flow arguments: none in slice 1)
+FlowEvent(S, k, name, scores) ==       \* FlowState._create_out_event: uid, flow id, the flow's arguments, then the extra arguments
+  LET base == ArgUpdate(OutArgs(S, k), Fl(S, k).args) IN
   Ev(name, IF name = "FlowFinished" /\ HasVar(Fl(S, k), "_return_value")
-             THEN Append(OutArgs(S, k), <<"return_value", Var(Fl(S, k), "_return_value")>>) ELSE OutArgs(S, k), scores, "I", k)
+             THEN ArgSet(base, "return_value", Var(Fl(S, k), "_return_value")) ELSE base, scores, "I", k)
 
 (* actions: S.actions[a] = [name, args, status, scope (flow_scope_count)]; a removed action keeps its slot as "DELETED" *)
 Act(S, a) == S.actions[a]
@@ -280,14 +287,29 @@ MatchScore(S, k, hid, event) ==       \* a positive score is scaled by the prior
 NewHead(hid, pos, scores, catch, scopes) ==
   [hid |-> hid, pos |-> pos, status |-> "ACTIVE", scores |-> scores, catch |-> catch, scopes |-> scopes, children |-> <<>>]
 (* create_flow_instance + add_new_flow_instance (slice 1: no parameters, loop PARENT) *)
-AddInstance(S, fid, hier, uidn) ==
+PosKey(j) == CASE j = 0 -> "$0" [] j = 1 -> "$1" [] j = 2 -> "$2" [] j = 3 -> "$3" [] OTHER -> "$9"
+DefaultVal(p) == IF ~p.has_default THEN <<"n", 0>>
+                 ELSE IF p.default.t = "i" THEN <<"i", p.default.n>> ELSE IF p.default.t = "s" THEN <<"s", p.default.v>>
+                 ELSE IF p.default.t = "b" THEN <<"b", p.default.n = 1>> ELSE IF p.default.t = "n" THEN <<"n", 0>> ELSE <<"f", p.default.v>>
+(* create_flow_instance: FlowState.arguments (names in order, then the positional keys that were given) and the initial context *)
+NamedVal(fid, evargs, i) == LET pr == Cfg(fid).params[i] IN IF pr.name \in ArgKeys(evargs) THEN ArgVal(evargs, pr.name) ELSE DefaultVal(pr)
+FlowArgs(fid, evargs) ==
+  LET ps == Cfg(fid).params
+      named == [i \in 1..Len(ps) |-> <<ps[i].name, IF PosKey(i - 1) \in ArgKeys(evargs) THEN ArgVal(evargs, PosKey(i - 1)) ELSE NamedVal(fid, evargs, i)>>]
+      given == SelectSeq([i \in 1..Len(ps) |-> i], LAMBDA i : PosKey(i - 1) \in ArgKeys(evargs))
+  IN named \o [q \in 1..Len(given) |-> <<PosKey(given[q] - 1), ArgVal(evargs, PosKey(given[q] - 1))>>]
+RECURSIVE CtxFrom(_, _, _, _)
+CtxFrom(fid, evargs, i, ctx) == IF i > Len(Cfg(fid).params) THEN ctx
+                                ELSE CtxFrom(fid, evargs, i + 1, (Cfg(fid).params[i].name :> NamedVal(fid, evargs, i)) @@ ctx)
+AddInstanceA(S, fid, hier, uidn, evargs) ==
   LET k  == Len(S.flows) + 1
       f  == [fid |-> fid, uid |-> uidn, status |-> "WAITING", parent |-> 0, parentHead |-> 0, children |-> <<>>, activated |-> 0,
              loop |-> (IF Cfg(fid).loop.type = "NEW" THEN <<"new", 1000 + k>> ELSE IF Cfg(fid).loop.type = "NAMED" THEN <<Cfg(fid).loop.id, 0>> ELSE <<"none", 0>>),
-             prio |-> One, hier |-> hier, ctx |-> <<>>, actions |-> <<>>, heads |-> <<NewHead(1, 0, <<>>, <<>>, <<>>)>>,
+             prio |-> One, hier |-> hier, ctx |-> CtxFrom(fid, evargs, 1, <<>>), args |-> FlowArgs(fid, evargs), actions |-> <<>>, heads |-> <<NewHead(1, 0, <<>>, <<>>, <<>>)>>,
              forks |-> <<>>, scopes |-> <<>>, newinst |-> FALSE, nexthid |-> 2, old |-> FALSE]
       S1 == [S EXCEPT !.flows = Append(@, f)]
   IN HeadChanged(S1, k, 1)
+AddInstance(S, fid, hier, uidn) == AddInstanceA(S, fid, hier, uidn, <<>>)
 UidToInst(S, u) == IF u[1] = "uid" /\ \E k \in 1..Len(S.flows) : S.flows[k].uid = u[2] /\ S.flows[k].status # "GONE"
                      THEN CHOOSE k \in 1..Len(S.flows) : S.flows[k].uid = u[2] /\ S.flows[k].status # "GONE" ELSE 0
 
@@ -296,12 +318,13 @@ IsRefActivated(S, k) ==      \* _is_reference_activated_flow
 IsChildActivated(S, k) ==    \* _is_child_activated_flow
   LET f == Fl(S, k) IN f.activated > 0 /\ f.parent # 0 /\ Fl(S, f.parent).status # "GONE" /\ f.fid = Fl(S, f.parent).fid
 (* FlowState.start_event for a restart: same hierarchy position, new instance uid, activation count carried over *)
-RestartEvent(S, k, scores) ==
+RestartEvent0(S, k, scores) ==
   LET f   == Fl(S, k)
       src == IF f.parent # 0 /\ Fl(S, f.parent).fid = f.fid THEN Fl(S, f.parent).uid ELSE f.uid
   IN Ev("StartFlow", << <<"flow_instance_uid", <<"uid", S.nuid>>>>, <<"flow_id", <<"s", f.fid>>>>,
                         <<"source_flow_instance_uid", <<"uid", src>>>>, <<"source_head_uid", <<"i", f.parentHead>>>>,
                         <<"flow_hierarchy_position", <<"hier", f.hier>>>>, <<"activated", <<"i", f.activated>>>> >>, scores, "I", k)
+RestartEvent(S, k, scores) == LET e == RestartEvent0(S, k, scores) IN [e EXCEPT !.args = ArgUpdate(@, Fl(S, k).args)]      \* start_event: arguments.update(self.arguments)
 Restart(S, k, scores, deact) ==
   IF ~deact /\ Fl(S, k).activated > 0 /\ ~Fl(S, k).newinst
     THEN LET S1 == PushLeft(S, RestartEvent(S, k, scores)) IN [S1 EXCEPT !.nuid = @ + 1, !.flows[k].newinst = TRUE]
@@ -371,7 +394,12 @@ StartFlowInst(S, k, evargs) ==
            S1 == [S EXCEPT !.flows[k].parent = p, !.flows[k].parentHead = ph, !.flows[k].loop = (IF Cfg(Fl(S, k).fid).loop.id = "" THEN Fl(S, p).loop
                                                ELSE IF Cfg(Fl(S, k).fid).loop.id = "NEW" THEN <<"new", k>> ELSE <<Cfg(Fl(S, k).fid).loop.id, 0>>),
                            !.flows[k].activated = IF av[1] = "b" THEN (IF av[2] THEN 1 ELSE 0) ELSE av[2]]
-       IN [S1 EXCEPT !.flows[p].children = Append(@, k)]
+           \* positional parameters: walk the keys of FlowState.arguments in order; stop at the first position that was not given
+           keys == [i \in 1..Len(Fl(S, k).args) |-> Fl(S, k).args[i][1]]
+           RECURSIVE Bind(_, _)
+           Bind(T, i) == IF i > Len(keys) \/ PosKey(i - 1) \notin ArgKeys(evargs) THEN T
+                         ELSE Bind(SetFl(T, k, SetVar(Fl(T, k), keys[i], ArgVal(evargs, PosKey(i - 1)))), i + 1)
+       IN Bind([S1 EXCEPT !.flows[p].children = Append(@, k)], 1)
 
 (* ------------------------------------------------------------------ slide *)
 (* returns [S, new (seq of head ids created by a fork / re-activated by a merge), err (BOOLEAN)] *)
@@ -627,8 +655,14 @@ ProcessEvent(S0, event, actionable) ==
       sfid   == ArgVal(event.args, "flow_id")[2]
       wantsAct == "activated" \in ArgKeys(event.args) /\ Truthy(ArgVal(event.args, "activated"))
       \* _get_reference_activated_flow_instance (no parameters in the fragment): first activated instance of that flow whose parent is another flow
+      \* ... with exactly the same parameter values (named, positional or default)
+      SameParams(q) == \A i \in 1..Len(Cfg(sfid).params) :
+          LET pr == Cfg(sfid).params[i]  v == ArgVal(S0.flows[q].args, pr.name) IN
+          \/ (pr.name \in ArgKeys(event.args) /\ v = ArgVal(event.args, pr.name))
+          \/ (PosKey(i - 1) \in ArgKeys(event.args) /\ v = ArgVal(event.args, PosKey(i - 1)))
+          \/ (pr.name \notin ArgKeys(event.args) /\ PosKey(i - 1) \notin ArgKeys(event.args) /\ pr.has_default /\ v = DefaultVal(pr))
       refs   == {q \in 1..Len(S0.flows) : S0.flows[q].fid = sfid /\ S0.flows[q].activated > 0 /\ S0.flows[q].parent # 0
-                                           /\ S0.flows[S0.flows[q].parent].fid # sfid}
+                                           /\ S0.flows[S0.flows[q].parent].fid # sfid /\ SameParams(q)}
       ref    == IF isStart /\ wantsAct /\ refs # {} THEN CHOOSE q \in refs : \A r \in refs : q <= r ELSE 0
       srcK   == IF isStart THEN UidToInst(S0, ArgVal(event.args, "source_flow_instance_uid")) ELSE 0
       childAct == isStart /\ srcK # 0 /\ Fl(S0, srcK).fid = sfid
@@ -638,8 +672,10 @@ ProcessEvent(S0, event, actionable) ==
               THEN LET T1 == [S0 EXCEPT !.flows[ref].activated = @ + 1, !.flows[srcK].children = Append(@, ref)]
                        fe == FlowEvent(T1, ref, "FlowStarted", event.scores)
                    IN Push(T1, [fe EXCEPT !.args = ArgSet(@, "flow_instance_uid", ArgVal(event.args, "flow_instance_uid"))])
+            ELSE IF isStart /\ wantsAct /\ childAct /\ Fl(S0, srcK).activated = 0
+              THEN S0        \* the restart of an activated flow that was deactivated while the restart was pending: dropped
             ELSE IF isStart
-              THEN AddInstance(S0, sfid, ArgVal(event.args, "flow_hierarchy_position")[2], ArgVal(event.args, "flow_instance_uid")[2])
+              THEN AddInstanceA(S0, sfid, ArgVal(event.args, "flow_hierarchy_position")[2], ArgVal(event.args, "flow_instance_uid")[2], event.args)
             ELSE S0
       sc == ScoreCands(S1, event1, Candidates(S1, event1), [S |-> S1, matching |-> <<>>, failing |-> <<>>, handled |-> IF reuse THEN {<<"all", 0>>} ELSE {}])
       unhandled == activeLoops \ sc.handled
